@@ -15,7 +15,7 @@ for d in seeded/*/; do
   wt=/tmp/wt-seeded-$name-$$
   git -C /repo worktree add --detach "$wt" HEAD >/dev/null 2>&1 || { echo "$name $prop WORKTREE-FAILED"; continue; }
   if ! git -C "$wt" apply "/verif/$d/patch.diff" 2>/dev/null; then echo "$name $prop APPLY-FAILED"; git -C /repo worktree remove --force "$wt"; continue; fi
-  out=$(engine/gosx check -id "$prop" -tier "$tier" -repo "$wt" -evidence-suffix ".seeded" 2>&1); rc=$?
+  out=$(engine/gosx check -id "$prop" -tier "$tier" -repo "$wt" -evidence-suffix ".seeded-$name" 2>&1); rc=$?
   git -C /repo worktree remove --force "$wt" >/dev/null 2>&1
   v=$(echo "$out" | grep -c '^VIOLATION')
   case $rc in 1) res=CAUGHT;; 0) res=MISSED;; *) res="INCONCLUSIVE";; esac
@@ -24,4 +24,4 @@ for d in seeded/*/; do
   printf '%s\t%s\t%s\t%s\t%s\t%s\n' "$name" "$prop" "$res" "$tier" "$(git -C /verif rev-parse --short HEAD)" "$(echo "$out" | grep -m1 'assert=' | sed 's/^ *//' | cut -c1-160)" >> /verif/seeded/RESULTS.tsv
   [ "$res" = INCONCLUSIVE ] && echo "$out" | grep -m2 INCONCLUSIVE | cut -c1-300
 done
-rm -f evidence/*.seeded.json
+rm -f evidence/*.seeded-*.json
